@@ -209,7 +209,17 @@ func init() {
 				}
 				// reads
 				var reads []string
-				ctx := eval.NewCtxFromVars(conf, vals)
+				var ctx *eval.Ctx
+				var cpan interface{}
+				guarded(map[string]interface{}{"call": "NewCtxFromVars", "key_map": fmt.Sprint(conf.VariableKeyMap), "values": fmt.Sprint(vals)}, func() {
+					defer func() { cpan = recover() }()
+					ctx = eval.NewCtxFromVars(conf, vals)
+				})
+				if cpan != nil || ctx == nil {
+					c.Direct = append(c.Direct, DirectViolation{What: fmt.Sprintf("NewCtxFromVars panicked: %v", cpan), Sig: "c11-ctx-panic",
+						Sample: map[string]interface{}{"key_map": fmt.Sprint(conf.VariableKeyMap), "values": fmt.Sprint(vals)}})
+					continue
+				}
 				for _, nme := range bnames {
 					e, err, pan := compileSafe(conf, "(c_id "+nme+")")
 					if pan != nil || err != nil {
